@@ -255,6 +255,17 @@ def _mono_pow(m, e):
     return tuple((s, x * e) for s, x in m) if e != 0 else ()
 
 
+COMPLEX_ATOMS = set()     # atoms that stand for complex (not real) quantities
+
+
+def _conj_atom(a):
+    if a.startswith('cj:'):
+        return a[3:]
+    if a in COMPLEX_ATOMS:
+        return 'cj:' + a
+    return a
+
+
 class Poly(object):
     """sum coef * prod atom**exp ; coef in Z8, exp rational."""
     __slots__ = ('t', '_h')
@@ -451,9 +462,18 @@ class Poly(object):
         return self.map_coefs(lambda c: c.comp(b))
 
     def conj(self):
-        return self.map_coefs(lambda c: c.conj())
+        """complex conjugate; atoms are real unless registered in COMPLEX_ATOMS (their conjugate is the atom cj:<name>)"""
+        if not (self.atoms() & COMPLEX_ATOMS) and not any(a.startswith('cj:') for a in self.atoms()):
+            return self.map_coefs(lambda c: c.conj())
+        out = {}
+        for m, c in self.t.items():
+            m2 = tuple(sorted(((_conj_atom(s_), e) for s_, e in m)))
+            out[m2] = out.get(m2, Z8.ZERO) + c.conj()
+        return Poly(out)
 
     def is_real(self):
+        if self.atoms() & COMPLEX_ATOMS or any(a.startswith('cj:') for a in self.atoms()):
+            return False
         return all(c.is_real() for c in self.t.values())
 
     def subs(self, mapping):
